@@ -105,7 +105,7 @@ func (l *Layout) NewValidFile(t *rapid.T, label, dir, name string, edits EditsFu
 	if edits == nil {
 		edits = MarkerEdits
 	}
-	s := &specs.Spec{Version: "0.6.0", Kind: kind, ContainerEdits: edits(t, marker, "")}
+	s := &specs.Spec{Version: "1.0.0", Kind: kind, ContainerEdits: edits(t, marker, "")}
 	for _, d := range devs {
 		s.Devices = append(s.Devices, specs.Device{Name: d, ContainerEdits: edits(t, marker, d)})
 	}
